@@ -19,7 +19,7 @@ func init() {
 		Rule:   "each run = 2-4 client tasks x 1-5 operations (MutateRow with 1-3 valid/invalid mutations, MutateRows, CheckAndMutateRow with predicates over the contended column, ReadModifyWriteRow increments/appends, single-row reads) on 1-2 rows of one table, interleaved by the seeded scheduler at every lock operation, engine access and response marshalling; the recorded history (stamped with the global event counter) is checked per row with porcupine against the reference model, plus sum / single-winner invariants for the directed shapes; distinct = hash of the (task, scheduling point) trace and responses; non-trivial = at least one preemption",
 		Real:   []string{"bttest MutateRow, MutateRows, CheckAndMutateRow, ReadModifyWriteRow, ReadRows", "btree / goleveldb-mem / goleveldb-disk engines (Get/Put/Delete through the Rows seam)"},
 		Stub:   []string{"sync.Mutex/RWMutex of server and table (cooperative equivalents with the same admission rules)", "gRPC transport (direct calls; unary responses are marshalled at a later scheduling point than the handler's return)", "server clock (constant within a run)"},
-		Assume: []string{"porcupine verdict Unknown (timeout) is counted, never reported", "writer preference of RWMutex is not modelled: any admission order Go allows is allowed"},
+		Assume: []string{"porcupine verdict Unknown (timeout) is counted, never reported", "the cooperative table mutex follows sync.RWMutex (a waiting writer keeps new readers out; readers queued at a release go first)"},
 		Run:    runC06,
 	})
 	expectedProbes["C06"] = []string{"c06.concurrent_increments", "c06.cam_race", "c06.multi_mutation_vs_reader", "c06.overlapping_ops", "c06.invalid_kth", "c06.porcupine_ok"}
